@@ -418,6 +418,9 @@ func (h *harness) niCase(c *niCase, comp compiler.Name, variant int, r *vh.Rng, 
 				budget = 40
 			}
 		}
+		if c.heavy {
+			budget = 4
+		}
 		for _, l := range selectLeaves(leaves, budget) {
 			p2 := l.alter(proof, 0x01)
 			if p2 == nil {
